@@ -119,11 +119,14 @@ func genC11(r *simrt.RNG) *Case {
 			cy.Drain = 0
 		}
 		cy.ExtraClear = r.Intn(5) == 0
+		cy.NoClear = r.Intn(3) == 0
 		pl.Cycles = append(pl.Cycles, cy)
 	}
 	c := &Case{Prop: "C11", Kind: "morass-history", Plan: marshalPlan(pl)}
-	if pl.Concurrent {
-		// adversarial schedules of concurrent mode are C12's business
+	if pl.Concurrent && r.Bool() {
+		// the writers run as soon as they exist (the adversarial schedules of
+		// concurrent mode are C12's business, but the other half of the
+		// concurrent-mode histories gets them too)
 		c.Sched = Sched{Strategy: "newest"}
 	} else {
 		c.Sched = PickStrategy(r, 200, []string{morassWriterSite}, nil)
@@ -205,6 +208,11 @@ func shrinkMorass(c *Case) []*Case {
 		if cy.ExtraClear {
 			q := clone()
 			q.Cycles[i].ExtraClear = false
+			add(q)
+		}
+		if cy.NoClear {
+			q := clone()
+			q.Cycles[i].NoClear = false
 			add(q)
 		}
 		if cy.Drain >= 0 {
@@ -310,6 +318,15 @@ func genC13Fault(r *simrt.RNG) *Case {
 		}
 		pl.AutoClear = r.Intn(3) != 0
 	}
+	if r.Intn(3) == 0 {
+		// after a failing Pull the caller drains on: residue under AutoClean / AutoClear
+		pl.DrainOn = true
+		if len(pl.Cycles) == 1 && r.Bool() {
+			pl.AutoClean = true // removes the directory: single-cycle histories only
+		} else {
+			pl.AutoClear = true
+		}
+	}
 	c := &Case{Prop: "C13", Kind: "morass-fault", Plan: marshalPlan(pl)}
 	if pl.Concurrent {
 		c.Sched = PickStrategy(r, 60+12*n, []string{morassWriterSite}, []string{"finalise-enter"})
@@ -361,6 +378,11 @@ func readKind(kind string) bool {
 }
 
 func exploreC13(t *testing.T, w *Worker, r *simrt.RNG) {
+	if w.unit == 0 {
+		for _, c := range bigChunkCases("C13") {
+			w.Report(c, runMorass(t, c, RunOpts{}))
+		}
+	}
 	if r.Intn(4) == 0 {
 		c := genC13Residue(r)
 		res := runMorass(t, c, RunOpts{})
@@ -459,10 +481,51 @@ func exploreC13(t *testing.T, w *Worker, r *simrt.RNG) {
 	}
 }
 
+// bigChunkCases: "any in-memory chunk size" includes sizes beyond every
+// constant an implementation may have (1024 is a favourite): once per check,
+// sorts of chunk+1 .. 2*chunk+1 values at chunk sizes 1025 and 2000, and a
+// second sort on the recycled buffers after a Clear.
+func bigChunkCases(prop string) []*Case {
+	var out []*Case
+	keys := func(n int) []int {
+		k := make([]int, n)
+		for i := range k {
+			k[i] = (i * 7919) % 1000
+		}
+		return k
+	}
+	for _, chunk := range []int{1025, 2000} {
+		for _, conc := range []bool{false, true} {
+			if prop == "C12" && !conc {
+				continue
+			}
+			pl := MorassPlan{Chunk: chunk, Concurrent: conc, AutoClear: conc, CleanUp: true, Cycles: []MCycle{
+				{Keys: keys(chunk + 1), Drain: -1},
+				{Keys: keys(2*chunk + 1), Drain: -1},
+				{Keys: keys(chunk + 7), Drain: -1},
+			}}
+			c := &Case{Prop: prop, Kind: "morass-history", Plan: marshalPlan(pl), Sched: Sched{Strategy: "rtc"}}
+			if prop == "C13" {
+				c.Kind = "morass-residue"
+			}
+			if conc {
+				c.Sched = Sched{Strategy: "newest"}
+			}
+			out = append(out, c)
+		}
+	}
+	return out
+}
+
 func init() {
 	register(&Property{
 		ID: "C11",
 		Explore: func(t *testing.T, w *Worker, r *simrt.RNG) {
+			if w.unit == 0 {
+				for _, c := range bigChunkCases("C11") {
+					w.Report(c, runMorass(t, c, RunOpts{}))
+				}
+			}
 			c := genC11(r)
 			w.Report(c, runMorass(t, c, RunOpts{}))
 		},
@@ -472,6 +535,11 @@ func init() {
 	register(&Property{
 		ID: "C12",
 		Explore: func(t *testing.T, w *Worker, r *simrt.RNG) {
+			if w.unit == 0 {
+				for _, c := range bigChunkCases("C12") {
+					w.Report(c, runMorass(t, c, RunOpts{}))
+				}
+			}
 			c := genC12(r)
 			w.Report(c, runMorass(t, c, RunOpts{}))
 		},
